@@ -291,6 +291,32 @@ def reverse(pid):
                     res.ok({"function": f.path, "link": fld, "entry": idv[:40], "cache_store": "precedes" if before else "follows on every Ok path"}, nontrivial=True)
                 else:
                     res.fail(Finding(res.rule, key + "/cache-store-not-on-all-paths", "%s patches the %s link of entry %s in the file (line %d); the matching store into the cached entry is not on every path" % (f.path.split("::")[-1], fld.split("_")[0], idv[:40], c.line), f, c.term["span"]))
+            # whole entries: an entry VALUE written over a slot of the file (entry.write_to(seek_to_dir_entry(id))) is
+            # also stored into the cached table at that slot
+            for bb, c in sorted(v.calls.items()):
+                if not c.name.endswith("DirEntry::write_to") or len(c.term["args"]) < 2:
+                    continue
+                a0 = pr.operand(c.term["args"][0])
+                m = re.search(r"seek_to_dir_entry\(param:self,(.*?)\)\)*$", pr.operand(c.term["args"][1]))
+                if not m or re.search(r"param:self\.dir_entries", a0):
+                    continue        # the cached entry itself is being written back
+                n += 1
+                idv = m.group(1)
+                wstores = set()
+                for a in [x for x in v.calls.values() if x.name in accessors and x.name.endswith("_mut") and len(x.term["args"]) > 1 and pr.operand(x.term["args"][1]) == idv]:
+                    refs = forward_taint(f, {a.term["dest"]["local"]})
+                    for bb2, blk2 in enumerate(f.blocks):
+                        if blk2["cleanup"]:
+                            continue
+                        for i2, st2 in enumerate(blk2["stmts"]):
+                            if st2["s"] == "assign" and st2["place"]["local"] in refs and [e["p"] for e in st2["place"]["proj"]] == ["deref"] and pr._def((bb2, i2, st2), 0, ()) == a0:
+                                wstores.add(("s", bb2, i2))
+                key = "R-TW/%s/whole-entry" % f.path
+                after_reach = pg.reach_after(("t", bb), wstores | err_all)
+                if wstores and (("t", bb) not in pg.reach([pg.entry()], wstores) or not any(r in after_reach for r in pg.returns())):
+                    res.ok({"function": f.path, "entry_value": a0[:50], "slot": idv[:40], "cache_store": True}, nontrivial=True)
+                else:
+                    res.fail(Finding(res.rule, key + "/file-written-cache-not", "%s writes the entry value %s over slot %s of the file (line %d) but does not store it into the cached table on every path: the live object still sees the old entry in that slot (a released slot stays 'allocated' and is never reused)" % (f.path.split("::")[-1], a0[:50], idv[:40], c.line), f, c.term["span"]))
         res.floor("in-place link patches", n, ctx.table("floors").get("tw_sites", 0))
         return res
     return run
